@@ -1,7 +1,7 @@
 (* C08 on the unified model: a reactive RSCP peer with a fault script as an environment machine *)
 From Coq Require Import List Arith NArith ZArith Lia Bool.
 Import ListNotations.
-Require Import Client ClientReasm.
+Require Import Client ClientReasm ClientShort.
 Local Open Scope N_scope.
 
 Section Peer.
@@ -25,10 +25,11 @@ Section Peer.
   Notation al := ClientReasm.al.
 
   Variable decodeP : list N -> list msg.
+  (* what the peer answers: reply_of normally, deny_of when its script says Refuse *)
   Variable reply_of : list msg -> list msg.
-  Variable gp : list N.
+  Variable deny_of : list msg -> list msg.
 
-  (* cipher and codec facts (to be discharged by CBC.v / Frame.v) *)
+  (* cipher and codec facts (discharged for the RSCP instance in C08Proofs.v) *)
   Hypothesis decP_app : forall iv a b, al a -> decP iv (a ++ b) = decP iv a ++ decP (decI iv a) b.
   Hypothesis decI_app : forall iv a b, al a -> decI iv (a ++ b) = decI (decI iv a) b.
   Hypothesis decP_nil : forall iv, decP iv [] = [].
@@ -44,61 +45,90 @@ Section Peer.
   Hypothesis V_prefix : forall ts ms n, okm ms -> (n < length (encode ts ms))%nat -> (n mod 32 = 0)%nat ->
                                         V (firstn n (encode ts ms)) = Some None.
   Hypothesis reply_okm : forall ms, okm (reply_of ms).
+  Hypothesis deny_okm : forall ms, okm (deny_of ms).
   Hypothesis auth_okm : okm auth_req.
-  Hypothesis gp_bad : length gp = 32%nat /\ V gp = None /\ V [] = Some None.
   Hypothesis reply_nonempty : forall ms, reply_of ms <> [].
+  Hypothesis deny_nonempty : forall ms, deny_of ms <> [].
   Hypothesis auth_grants : auth_ok (reply_of auth_req) = true.
+  Hypothesis auth_denies : auth_ok (deny_of auth_req) = false.
   Hypothesis auth_valid : valid_req auth_req = true.
 
-  Inductive behaviour := Answer | Silent | CloseBefore | Garbage (tail : list N).
-  Record pstate := { p_enc : list N; p_dec : list N; inflight : list (list N); closed : bool;
+  Variable maxlen : nat.
+  Hypothesis enc_bound : forall ts ms, okm ms -> (length (encode ts ms) <= maxlen)%nat.
+
+  (* a plaintext the receiver rejects exactly when it has read all of it: whole blocks, every shorter run of blocks is
+     "incomplete", the whole is refused (a garbled header block; a frame with a wrong checksum; a frame with a malformed payload) *)
+  Definition badg (g : list N) : Prop :=
+    al g /\ g <> [] /\ (length g <= maxlen)%nat /\
+    (forall n, (n < length g)%nat -> (n mod 32 = 0)%nat -> V (firstn n g) = Some None) /\ V g = None.
+
+  (* per exchange, the peer ...                                                   what the client must do
+     Answer         answers with reply_of request                                return that reply
+     Refuse         answers with deny_of request                                 return that reply (authentication: fail, stay connected)
+     Silent         does not answer                                              fail at the deadline, disconnect
+     Late           answers after the client's deadline has passed                fail at the deadline, disconnect
+     CloseBefore    closes the connection instead of answering                   fail, disconnect
+     CloseInside n  sends the first n mod length bytes of the encrypted reply, then closes          fail, disconnect
+     Bad g tail     sends the rejected plaintext g (encrypted) followed by tail (e.g. a stale, well-formed frame)    fail, disconnect *)
+  Inductive behaviour := Answer | Refuse | Silent | Late | CloseBefore | CloseInside (n : nat) | Bad (g tail : list N).
+  Record pstate := { p_enc : list N; p_dec : list N; inflight : list (list N); delayed : list (list N); closed : bool;
                      script : list behaviour; plog : list (list msg) }.
   Definition pts : Z * Z := (0%Z, 0%Z).            (* the peer's own timestamps do not matter *)
+  Definition hd_b (p : pstate) : behaviour := match script p with [] => Answer | b :: _ => b end.
+  Definition okb (b : behaviour) : Prop := match b with Bad g _ => badg g | _ => True end.
 
   Definition p_dial (p : pstate) : pstate * bool * Z :=
-    ({| p_enc := iv0; p_dec := iv0; inflight := []; closed := false; script := script p; plog := plog p |}, true, 0%Z).
+    ({| p_enc := iv0; p_dec := iv0; inflight := []; delayed := []; closed := false; script := script p; plog := plog p |}, true, 0%Z).
 
   Definition p_write (p : pstate) (ct : list N) : pstate * bool * Z :=
     let pt := decP (p_dec p) ct in
     let d' := decI (p_dec p) ct in
     let req := decodeP pt in
-    let rep := encode pts (reply_of req) in
-    let log' := plog p ++ [req] in
-    (match script p with
-     | [] => let '(c, e') := enc (p_enc p) rep in
-             {| p_enc := e'; p_dec := d'; inflight := inflight p ++ [c]; closed := closed p; script := []; plog := log' |}
-     | Answer :: sc => let '(c, e') := enc (p_enc p) rep in
-             {| p_enc := e'; p_dec := d'; inflight := inflight p ++ [c]; closed := closed p; script := sc; plog := log' |}
-     | Silent :: sc =>
-             {| p_enc := p_enc p; p_dec := d'; inflight := inflight p; closed := closed p; script := sc; plog := log' |}
-     | CloseBefore :: sc =>
-             {| p_enc := p_enc p; p_dec := d'; inflight := inflight p; closed := true; script := sc; plog := log' |}
-     | Garbage tail :: sc =>
-             let '(c1, e1) := enc (p_enc p) gp in let '(c2, e2) := enc e1 tail in
-             {| p_enc := e2; p_dec := d'; inflight := inflight p ++ [c1] ++ (if (length c2 =? 0)%nat then [] else [c2]);
-                closed := closed p; script := sc; plog := log' |}
+    let mk e i dl cl := {| p_enc := e; p_dec := d'; inflight := i; delayed := dl; closed := cl; script := tl (script p); plog := plog p ++ [req] |} in
+    (match hd_b p with
+     | Answer => let '(c, e') := enc (p_enc p) (encode pts (reply_of req)) in mk e' (inflight p ++ [c]) (delayed p) (closed p)
+     | Refuse => let '(c, e') := enc (p_enc p) (encode pts (deny_of req)) in mk e' (inflight p ++ [c]) (delayed p) (closed p)
+     | Silent => mk (p_enc p) (inflight p) (delayed p) (closed p)
+     | Late => let '(c, e') := enc (p_enc p) (encode pts (reply_of req)) in mk e' (inflight p) (delayed p ++ [c]) (closed p)
+     | CloseBefore => mk (p_enc p) (inflight p) (delayed p) true
+     | CloseInside n => let '(c, e') := enc (p_enc p) (encode pts (reply_of req)) in
+                        let k := (n mod length c)%nat in
+                        mk e' (inflight p ++ (if (k =? 0)%nat then [] else [firstn k c])) (delayed p) true
+     | Bad g tail => let '(c1, e1) := enc (p_enc p) g in let '(c2, e2) := enc e1 tail in
+                     mk e2 (inflight p ++ [c1] ++ (if (length c2 =? 0)%nat then [] else [c2])) (delayed p) (closed p)
      end, true, 0%Z).
 
   Definition p_read (p : pstate) (n : nat) : pstate * rres * Z :=
     match inflight p with
     | u :: r =>
       if (length u <=? n)%nat
-      then ({| p_enc := p_enc p; p_dec := p_dec p; inflight := r; closed := closed p; script := script p; plog := plog p |}, RData u, 0%Z)
-      else ({| p_enc := p_enc p; p_dec := p_dec p; inflight := skipn n u :: r; closed := closed p; script := script p; plog := plog p |},
+      then ({| p_enc := p_enc p; p_dec := p_dec p; inflight := r; delayed := delayed p; closed := closed p; script := script p; plog := plog p |}, RData u, 0%Z)
+      else ({| p_enc := p_enc p; p_dec := p_dec p; inflight := skipn n u :: r; delayed := delayed p; closed := closed p; script := script p; plog := plog p |},
             RData (firstn n u), 0%Z)
-    | [] => (p, if closed p then REOF else RTimeout, 0%Z)
+    | [] => match delayed p with
+            | [] => (p, if closed p then REOF else RTimeout, 0%Z)
+            | dl => (* the late data arrives only after the waiting Read has timed out *)
+                    ({| p_enc := p_enc p; p_dec := p_dec p; inflight := dl; delayed := []; closed := closed p; script := script p; plog := plog p |}, RTimeout, 0%Z)
+            end
     end.
 
   Definition peer : envsm pstate :=
     {| on_dial := p_dial; on_write := p_write; on_read := p_read; on_close := fun p => p; on_now := fun p => (p, pts) |}.
 
-  (* everything about the peer that reading and closing leave alone *)
+  (* everything about the peer that reading data and closing leave alone *)
   Definition Rel (a b : pstate) : Prop :=
-    p_enc a = p_enc b /\ p_dec a = p_dec b /\ closed a = closed b /\ script a = script b /\ plog a = plog b.
+    p_enc a = p_enc b /\ p_dec a = p_dec b /\ closed a = closed b /\ script a = script b /\ plog a = plog b /\ delayed a = delayed b.
   Lemma Rel_refl e : Rel e e. Proof. repeat split. Qed.
   Lemma Rel_trans a b c : Rel a b -> Rel b c -> Rel a c.
-  Proof. intros (A1 & A2 & A3 & A4 & A5) (B1 & B2 & B3 & B4 & B5). repeat split; congruence. Qed.
+  Proof. intros (A1 & A2 & A3 & A4 & A5 & A6) (B1 & B2 & B3 & B4 & B5 & B6). repeat split; congruence. Qed.
   Lemma Rel_close e : Rel e (on_close pstate peer e). Proof. repeat split. Qed.
+  (* ... and what a Read that finds nothing leaves alone *)
+  Definition Rel' (a b : pstate) : Prop :=
+    p_enc a = p_enc b /\ p_dec a = p_dec b /\ closed a = closed b /\ script a = script b /\ plog a = plog b.
+  Lemma Rel'_refl e : Rel' e e. Proof. repeat split. Qed.
+  Lemma Rel'_trans a b c : Rel' a b -> Rel' b c -> Rel' a c.
+  Proof. intros (A1 & A2 & A3 & A4 & A5) (B1 & B2 & B3 & B4 & B5). repeat split; congruence. Qed.
+  Lemma Rel'_close e : Rel' e (on_close pstate peer e). Proof. repeat split. Qed.
 
   (* the peer's reads are a queue view of its inflight list *)
   Lemma peer_read_view : forall e n, match inflight e with
@@ -110,6 +140,23 @@ Section Peer.
   Proof.
     intros e n. destruct (inflight e) as [|p r] eqn:Ei; [exact I|].
     cbn [on_read peer]. unfold p_read. rewrite Ei. destruct (length p <=? n)%nat; eexists; repeat split; reflexivity.
+  Qed.
+  Lemma peer_read_view' : forall e n, match inflight e with
+    | [] => True
+    | p :: r => exists e', on_read pstate peer e n =
+                  (e', RData (if (length p <=? n)%nat then p else firstn n p), 0%Z) /\
+                inflight e' = (if (length p <=? n)%nat then r else skipn n p :: r) /\ Rel' e e'
+    end.
+  Proof.
+    intros e n. destruct (inflight e) as [|p r] eqn:Ei; [exact I|].
+    cbn [on_read peer]. unfold p_read. rewrite Ei. destruct (length p <=? n)%nat; eexists; repeat split; reflexivity.
+  Qed.
+  Lemma peer_read_empty : forall e n, inflight e = [] ->
+    exists e' r, on_read pstate peer e n = (e', r, 0%Z) /\ (r = REOF \/ r = RTimeout) /\ Rel' e e'.
+  Proof.
+    intros e n Ei. cbn [on_read peer]. unfold p_read. rewrite Ei. destruct (delayed e) as [|d dl].
+    - eexists _, _. split; [reflexivity|]. split; [destruct (closed e); auto|apply Rel'_refl].
+    - eexists _, _. split; [reflexivity|]. split; [auto|repeat split].
   Qed.
 
   (* a whole encrypted reply is "one reply" for the receive loop *)
@@ -132,21 +179,15 @@ Section Peer.
     - rewrite Hp, V_whole by assumption. discriminate.
   Qed.
 
-  Lemma garbage_one iv : one_reply msg decP V iv (fst (enc iv gp)).
+  Lemma garbage_one iv g : badg g -> one_reply msg decP V iv (fst (enc iv g)).
   Proof.
-    destruct gp_bad as (Hl & Hv & H0).
-    assert (Ha : al gp) by (unfold ClientReasm.al; rewrite Hl; reflexivity).
-    destruct (dec_enc iv gp Ha) as [Hp _].
-    unfold one_reply. split; [unfold ClientReasm.al; rewrite enc_len, Hl by exact Ha; reflexivity|]. split.
-    - intros n Hn Hm. rewrite enc_len in Hn by exact Ha. rewrite Hl in Hn.
-      assert (n = 0%nat). { destruct (Nat.eq_dec n 0); [assumption|]. pose proof (Nat.div_mod n 32 ltac:(discriminate)). rewrite Hm in *. lia. }
-      subst n. cbn [firstn]. rewrite decP_nil. exact H0.
+    intros (Ha & Hne & Hl & Hpre & Hv).
+    destruct (dec_enc iv g Ha) as [Hp _].
+    unfold one_reply. split; [unfold ClientReasm.al; rewrite enc_len by exact Ha; exact Ha|]. split.
+    - intros n Hn Hm. rewrite enc_len in Hn by exact Ha. rewrite firstn_decP by (rewrite ?enc_len by exact Ha; lia || exact Hm).
+      rewrite Hp. apply Hpre; assumption.
     - rewrite Hp, Hv. discriminate.
   Qed.
-
-  Variable maxlen : nat.
-  Hypothesis enc_bound : forall ts ms, okm ms -> (length (encode ts ms) <= maxlen)%nat.
-  Hypothesis gp_bound : (32 <= maxlen)%nat.
 
   Notation world := (world msg pstate).
   Notation send := (send msg encode enc valid_req send_to pstate peer).
@@ -154,9 +195,11 @@ Section Peer.
   Notation receive := (receive msg decode_step dec recv_to rbuf pstate peer).
   Notation disconnect := (disconnect msg pstate peer).
 
+  (* in sync or closed (and the rest of the fault script is well-formed) *)
   Definition Sync (s : cstate) (w : world) : Prop :=
+    Forall okb (script (est msg pstate w)) /\
     match cur msg pstate w with
-    | Some _ => inflight (est msg pstate w) = [] /\ closed (est msg pstate w) = false /\
+    | Some _ => inflight (est msg pstate w) = [] /\ delayed (est msg pstate w) = [] /\ closed (est msg pstate w) = false /\
                 eiv s = p_dec (est msg pstate w) /\ div s = p_enc (est msg pstate w)
     | None => authed s = false
     end.
@@ -176,7 +219,7 @@ Section Peer.
     intros Hc Hv. destruct to_pos as (_ & Hs & _). unfold Client.send. rewrite Hv, Hc. cbn [negb].
     destruct (log_keeps' w lDebug (LTree msg ms)) as (A1 & A2 & A3 & A4).
     set (w1 := log msg pstate lDebug (LTree msg ms) w) in *.
-    cbn [on_now peer]. 
+    cbn [on_now peer].
     destruct (enc (eiv s) (encode pts ms)) as [ct iv'] eqn:Ee.
     destruct (log_keeps' w1 lTrace (LDump msg (encode pts ms))) as (B1 & B2 & B3 & B4).
     set (w2 := log msg pstate lTrace (LDump msg (encode pts ms)) w1) in *.
@@ -184,7 +227,7 @@ Section Peer.
     set (w3 := log msg pstate lTrace (LDump msg ct) w2) in *.
     cbn [on_write peer].
     assert (Hw : exists p', p_write (est msg pstate w1) ct = (p', true, 0%Z)).
-    { unfold p_write. destruct (script (est msg pstate w1)) as [|[| | |tail] sc]; try (destruct (enc _ _)); try (destruct (enc _ _)); eexists; reflexivity. }
+    { unfold p_write. eexists. reflexivity. }
     destruct Hw as [p' Hw]. rewrite Hw.
     replace (dur 0%Z) with 0%Z by reflexivity.
     destruct (Z.leb_spec 0 send_to) as [_|]; [|lia]. cbn [andb].
@@ -195,34 +238,112 @@ Section Peer.
   Qed.
 
   Notation loop_inv := (ClientReasm.loop_inv msg decP decI decP_app decI_app V rbuf rbuf_pos pstate peer inflight Rel Rel_trans Rel_close peer_read_view).
+  Notation loop_short := (ClientShort.loop_short msg decP decI decP_app decI_app V rbuf rbuf_pos pstate peer inflight Rel' Rel'_trans Rel'_close peer_read_view' peer_read_empty).
 
-  Lemma fl0 : ClientReasm.fl 0 = 0%nat. Proof. reflexivity. Qed.
-
-  Definition healthy1 (p : pstate) : Prop := match script p with [] => True | Answer :: _ => True | _ => False end.
-
-  (* one exchange on a synchronised connection *)
-  (* adj: something done to the world between sending and receiving that only touches the log level *)
+  (* something done to the world between sending and receiving that only touches the log level *)
   Definition level_only (adj : world -> world) : Prop :=
     forall w, cur msg pstate (adj w) = cur msg pstate w /\ est msg pstate (adj w) = est msg pstate w /\
               clock msg pstate (adj w) = clock msg pstate w /\ next msg pstate (adj w) = next msg pstate w.
 
+  (* what the call must return, by the behaviour the peer's script prescribes for this exchange *)
+  Definition outcome (b : behaviour) (ms : list msg) (r : res (list msg)) : Prop :=
+    match b with
+    | Answer => r = Ok _ (reply_of ms)
+    | Refuse => r = Ok _ (deny_of ms)
+    | _ => exists x, r = Err _ x
+    end.
+
+  (* receiving on a connection on which exactly one complete reply is queued *)
+  Lemma recv_reply fuel s1 (w2 : world) j c pe rep tail deadline :
+    (maxlen < fuel)%nat -> okm rep -> rep <> [] -> c = fst (enc pe (encode pts rep)) ->
+    cur msg pstate w2 = Some j -> inflight (est msg pstate w2) = [c] ++ tail -> (clock msg pstate w2 <= deadline)%Z -> div s1 = pe ->
+    forall s' w' r, recv_loop fuel deadline [] [] s1 w2 = (s', w', r) ->
+    r = Ok _ rep /\ s' = {| authed := authed s1; eiv := eiv s1; div := snd (enc pe (encode pts rep)) |} /\
+    cur msg pstate w' = Some j /\ inflight (est msg pstate w') = tail /\ Rel (est msg pstate w2) (est msg pstate w').
+  Proof.
+    intros Hf Hok Hne Hc_c Hc2 Hq Hdl Hd s' w' r.
+    destruct (enc_al pts rep) as [Harep Hlrep].
+    assert (Hlen_c : length c = length (encode pts rep)) by (rewrite Hc_c; apply enc_len; exact Harep).
+    assert (Hone : one_reply msg decP V pe c) by (rewrite Hc_c; apply reply_one; assumption).
+    pose proof (loop_inv maxlen fuel [c] tail [] s1 pe c [] [] w2 deadline j
+                  ltac:(cbn [concat]; rewrite app_nil_r, Hlen_c; apply enc_bound, Hok) Hf ltac:(cbn [concat app]; rewrite app_nil_r; reflexivity)
+                  ltac:(constructor; [intro X; rewrite X in Hlen_c; cbn in Hlen_c; lia|constructor]) ltac:(discriminate) Hone Hc2 Hq Hdl
+                  (est msg pstate w2) (Rel_refl _) eq_refl ltac:(cbn; rewrite decP_nil; reflexivity) ltac:(cbn; rewrite decI_nil; exact Hd)
+                  ltac:(cbn [length]; lia)) as L.
+    destruct (recv_loop fuel deadline [] [] s1 w2) as [[s2 w3] r2].
+    destruct L as [Lf (Lrel & Lpost)].
+    unfold ClientReasm.final in Lf.
+    assert (HV : V (decP pe c) = Some (Some rep)) by (rewrite Hc_c, (proj1 (dec_enc pe (encode pts rep) Harep)); apply V_whole; assumption).
+    rewrite HV in Lf; injection Lf as -> ->.
+    intros [= <- <- <-]. destruct Lpost as [Lc Lq].
+    split; [reflexivity|]. split; [rewrite Hc_c, (proj2 (dec_enc pe (encode pts rep) Harep)); reflexivity|]. auto.
+  Qed.
+
+  (* receiving when the peer's data ends with a rejected plaintext *)
+  Lemma recv_bad fuel s1 (w2 : world) j c pe g tail deadline :
+    (maxlen < fuel)%nat -> badg g -> c = fst (enc pe g) ->
+    cur msg pstate w2 = Some j -> inflight (est msg pstate w2) = [c] ++ tail -> (clock msg pstate w2 <= deadline)%Z -> div s1 = pe ->
+    forall s' w' r, recv_loop fuel deadline [] [] s1 w2 = (s', w', r) ->
+    r = Err _ EProto /\ authed s' = false /\ cur msg pstate w' = None /\ Rel (est msg pstate w2) (est msg pstate w').
+  Proof.
+    intros Hf Hbad Hc_c Hc2 Hq Hdl Hd s' w' r.
+    pose proof Hbad as (Hag & Hgne & Hgl & _ & Hvg).
+    assert (Hlen_c : length c = length g) by (rewrite Hc_c; apply enc_len; exact Hag).
+    assert (Hone : one_reply msg decP V pe c) by (rewrite Hc_c; apply garbage_one; assumption).
+    assert (Hlpos : (0 < length g)%nat) by (destruct g; [congruence|cbn; lia]).
+    pose proof (loop_inv maxlen fuel [c] tail [] s1 pe c [] [] w2 deadline j
+                  ltac:(cbn [concat]; rewrite app_nil_r, Hlen_c; exact Hgl) Hf ltac:(cbn [concat app]; rewrite app_nil_r; reflexivity)
+                  ltac:(constructor; [intro X; rewrite X in Hlen_c; cbn in Hlen_c; lia|constructor]) ltac:(discriminate) Hone Hc2 Hq Hdl
+                  (est msg pstate w2) (Rel_refl _) eq_refl ltac:(cbn; rewrite decP_nil; reflexivity) ltac:(cbn; rewrite decI_nil; exact Hd)
+                  ltac:(cbn [length]; lia)) as L.
+    destruct (recv_loop fuel deadline [] [] s1 w2) as [[s2 w3] r2].
+    destruct L as [Lf (Lrel & Lpost)]. unfold ClientReasm.final in Lf.
+    assert (HV : V (decP pe c) = None) by (rewrite Hc_c, (proj1 (dec_enc pe g Hag)); exact Hvg).
+    rewrite HV in Lf. injection Lf as -> ->. intros [= <- <- <-]. auto.
+  Qed.
+
+  (* receiving when only a proper prefix of the encrypted reply arrives (possibly nothing) *)
+  Lemma recv_short fuel s1 (w2 : world) j c pe rep k deadline :
+    (maxlen < fuel)%nat -> okm rep -> rep <> [] -> c = fst (enc pe (encode pts rep)) -> (k < length c)%nat ->
+    cur msg pstate w2 = Some j -> inflight (est msg pstate w2) = (if (k =? 0)%nat then [] else [firstn k c]) ->
+    (clock msg pstate w2 <= deadline)%Z -> div s1 = pe ->
+    forall s' w' r, recv_loop fuel deadline [] [] s1 w2 = (s', w', r) ->
+    r = Err _ EIO /\ authed s' = false /\ cur msg pstate w' = None /\ Rel' (est msg pstate w2) (est msg pstate w').
+  Proof.
+    intros Hf Hok Hne Hc_c Hk Hc2 Hq Hdl Hd s' w' r.
+    destruct (enc_al pts rep) as [Harep Hlrep].
+    assert (Hlen_c : length c = length (encode pts rep)) by (rewrite Hc_c; apply enc_len; exact Harep).
+    assert (Hone : one_reply msg decP V pe c) by (rewrite Hc_c; apply reply_one; assumption).
+    set (e := if (k =? 0)%nat then [] else [firstn k c]) in *.
+    assert (Hcat : concat e = firstn k c).
+    { unfold e. destruct (Nat.eqb_spec k 0) as [->|]; [reflexivity|]. cbn [concat]. apply app_nil_r. }
+    assert (Hlk : length (firstn k c) = k) by (rewrite firstn_length; lia).
+    pose proof (loop_short maxlen fuel e [] (firstn k c) s1 pe c [] [] w2 deadline j
+                  ltac:(rewrite Hcat, Hlk; pose proof (enc_bound pts rep Hok); lia) Hf Hone Hcat ltac:(rewrite Hlk; reflexivity) ltac:(rewrite Hlk; exact Hk)
+                  ltac:(unfold e; destruct (Nat.eqb_spec k 0); constructor; [|constructor]; intro X; apply (f_equal (@length N)) in X; rewrite Hlk in X; cbn in X; lia)
+                  Hc2 Hq Hdl (est msg pstate w2) (Rel'_refl _) eq_refl ltac:(cbn; rewrite decP_nil; reflexivity) ltac:(cbn; rewrite decI_nil; exact Hd)) as L.
+    destruct (recv_loop fuel deadline [] [] s1 w2) as [[s2 w3] r2].
+    destruct L as (L1 & L2 & L3 & L4). intros [= <- <- <-]. auto.
+  Qed.
+
+  (* one exchange on a synchronised connection *)
   Lemma exchange (adj : world -> world) fuel s w ms j s' w' r : level_only adj ->
     Sync s w -> cur msg pstate w = Some j -> valid_req ms = true -> okm ms -> (maxlen < fuel)%nat ->
     (let '(s1, w1, r1) := send s w ms in
      match r1 with Err _ x => (s1, adj w1, Err _ x) | Ok _ _ => receive fuel s1 (adj w1) end) = (s', w', r) ->
     Sync s' w' /\ (authed s' = true -> authed s = true) /\
     plog (est msg pstate w') = plog (est msg pstate w) ++ [ms] /\
-    match r with Ok _ x => x = reply_of ms /\ cur msg pstate w' = Some j | Err _ _ => cur msg pstate w' = None end /\
-    (healthy1 (est msg pstate w) -> r = Ok _ (reply_of ms) /\ script (est msg pstate w') = tl (script (est msg pstate w))).
+    script (est msg pstate w') = tl (script (est msg pstate w)) /\
+    match r with Ok _ x => cur msg pstate w' = Some j /\ authed s' = authed s | Err _ x => cur msg pstate w' = None /\ (x = EIO \/ x = EProto) end /\
+    outcome (hd_b (est msg pstate w)) ms r.
   Proof.
-    intros Hadj HS Hc Hv Hok Hf. unfold Sync in HS. rewrite Hc in HS. destruct HS as (Hin & Hcl & He & Hd).
+    intros Hadj HS Hc Hv Hok Hf. unfold Sync in HS. rewrite Hc in HS. destruct HS as (Hsc & Hin & Hdl0 & Hcl & He & Hd).
     destruct to_pos as (_ & _ & Hr).
     destruct (send_peer s w ms j Hc Hv) as (w1_ & ct & iv' & Ee & Es & Hc1_ & He1_ & Hk1_ & Hn1_). rewrite Es.
     set (w1 := adj w1_). destruct (Hadj w1_) as (K1 & K2 & K3 & K4). fold w1 in K1, K2, K3, K4.
     assert (Hc1 : cur msg pstate w1 = Some j) by congruence.
     assert (He1 : est msg pstate w1 = fst (fst (p_write (est msg pstate w) ct))) by congruence.
     assert (Hk1 : clock msg pstate w1 = clock msg pstate w) by congruence.
-    assert (Hn1 : next msg pstate w1 = next msg pstate w) by congruence.
     clearbody w1. clear K1 K2 K3 K4 Hc1_ He1_ Hk1_ Hn1_ Es.
     set (s1 := {| authed := authed s; eiv := iv'; div := div s |}).
     (* what the peer did with the request *)
@@ -235,101 +356,86 @@ Section Peer.
     set (w2 := emit msg pstate (EvSetRD msg j recv_to) w1).
     assert (Hw2 : cur msg pstate w2 = Some j /\ est msg pstate w2 = est msg pstate w1 /\ clock msg pstate w2 = clock msg pstate w1) by (repeat split; exact Hc1).
     destruct Hw2 as (Hc2 & He2 & Hk2).
-    set (rep := reply_of ms).
     set (p := est msg pstate w) in *.
-    assert (Hp' : est msg pstate w1 = fst (fst (p_write p ct))) by exact He1.
-    unfold p_write in Hp'. rewrite HdP, HdI, decodeP_enc in Hp' by exact Hok. fold rep in Hp'.
+    assert (Hp' : est msg pstate w2 = fst (fst (p_write p ct))) by (rewrite He2; exact He1).
+    unfold p_write in Hp'. rewrite HdP, HdI, decodeP_enc in Hp' by exact Hok.
     assert (Hdl : (clock msg pstate w2 <= clock msg pstate w1 + recv_to)%Z) by lia.
-    destruct (script p) as [|[| | |tail] sc] eqn:Esc.
+    assert (Hsc' : Forall okb (tl (script p))) by (destruct (script p); [constructor|inversion Hsc; assumption]).
+    assert (Hokb : okb (hd_b p)) by (unfold hd_b; destruct (script p); [exact I|inversion Hsc; assumption]).
+    assert (Hds1 : div s1 = p_enc p) by exact Hd.
+    destruct (hd_b p) as [| | | | |n|g tail] eqn:Eb; unfold outcome.
     - (* the peer answers *)
-      destruct (enc (p_enc p) (encode pts rep)) as [c e'] eqn:Er; cbn [fst] in Hp'.
-      assert (Hc_c : c = fst (enc (p_enc p) (encode pts rep))) by (rewrite Er; reflexivity).
-      destruct (enc_al pts rep) as [Harep Hlrep].
-      assert (Hlen_c : length c = length (encode pts rep)) by (rewrite Hc_c; apply enc_len; exact Harep).
-      assert (Hone : one_reply msg decP V (p_enc p) c) by (rewrite Hc_c; apply reply_one; [apply reply_okm|apply reply_nonempty]).
-      assert (Hq : inflight (est msg pstate w2) = [c] ++ []) by (rewrite He2, Hp'; cbn [inflight]; rewrite Hin; reflexivity).
-      pose proof (loop_inv maxlen fuel [c] [] [] s1 (p_enc p) c [] [] w2 (clock msg pstate w1 + recv_to)%Z j
-                    ltac:(cbn [concat]; rewrite app_nil_r, Hlen_c; apply enc_bound, reply_okm) Hf ltac:(cbn [concat app]; rewrite app_nil_r; reflexivity)
-                    ltac:(constructor; [intro X; rewrite X in Hlen_c; cbn in Hlen_c; lia|constructor]) ltac:(discriminate) Hone Hc2 Hq Hdl
-                    (est msg pstate w2) (Rel_refl _) eq_refl ltac:(cbn; rewrite decP_nil; reflexivity) ltac:(cbn; rewrite decI_nil; exact Hd)
-                    ltac:(cbn [length]; lia)) as L.
-      destruct (recv_loop fuel (clock msg pstate w1 + recv_to)%Z [] [] s1 w2) as [[s2 w3] r2].
-      destruct L as [Lf (Lrel & Lpost)].
-      unfold ClientReasm.final in Lf.
-      assert (HV : V (decP (p_enc p) c) = Some (Some rep)) by (rewrite Hc_c, (proj1 (dec_enc (p_enc p) (encode pts rep) Harep)); apply V_whole; [apply reply_okm|apply reply_nonempty]).
-      rewrite HV in Lf; injection Lf as -> ->.
-      intros [= <- <- <-].
-      destruct Lpost as [Lc Lq]; destruct Lrel as (R1 & R2 & R3 & R4 & R5).
-      rewrite He2, Hp' in R1, R2, R3, R4, R5; cbn [p_enc p_dec closed script plog] in R1, R2, R3, R4, R5.
-      split.
-      { unfold Sync. rewrite Lc. cbn [eiv div s1]. split; [exact Lq|]. split; [rewrite <- R3; exact Hcl|]. split; [rewrite <- R2; reflexivity|].
-        rewrite <- R1, Hc_c. rewrite (proj2 (dec_enc (p_enc p) (encode pts rep) Harep)), Er. reflexivity. }
-      split; [auto|]. split; [rewrite <- R5; reflexivity|]. split; [split; [reflexivity|exact Lc]|].
-      intros _. split; [reflexivity|]. rewrite <- R4. reflexivity.
-    - (* the peer answers *)
-      destruct (enc (p_enc p) (encode pts rep)) as [c e'] eqn:Er; cbn [fst] in Hp'.
-      assert (Hc_c : c = fst (enc (p_enc p) (encode pts rep))) by (rewrite Er; reflexivity).
-      destruct (enc_al pts rep) as [Harep Hlrep].
-      assert (Hlen_c : length c = length (encode pts rep)) by (rewrite Hc_c; apply enc_len; exact Harep).
-      assert (Hone : one_reply msg decP V (p_enc p) c) by (rewrite Hc_c; apply reply_one; [apply reply_okm|apply reply_nonempty]).
-      assert (Hq : inflight (est msg pstate w2) = [c] ++ []) by (rewrite He2, Hp'; cbn [inflight]; rewrite Hin; reflexivity).
-      pose proof (loop_inv maxlen fuel [c] [] [] s1 (p_enc p) c [] [] w2 (clock msg pstate w1 + recv_to)%Z j
-                    ltac:(cbn [concat]; rewrite app_nil_r, Hlen_c; apply enc_bound, reply_okm) Hf ltac:(cbn [concat app]; rewrite app_nil_r; reflexivity)
-                    ltac:(constructor; [intro X; rewrite X in Hlen_c; cbn in Hlen_c; lia|constructor]) ltac:(discriminate) Hone Hc2 Hq Hdl
-                    (est msg pstate w2) (Rel_refl _) eq_refl ltac:(cbn; rewrite decP_nil; reflexivity) ltac:(cbn; rewrite decI_nil; exact Hd)
-                    ltac:(cbn [length]; lia)) as L.
-      destruct (recv_loop fuel (clock msg pstate w1 + recv_to)%Z [] [] s1 w2) as [[s2 w3] r2].
-      destruct L as [Lf (Lrel & Lpost)].
-      unfold ClientReasm.final in Lf.
-      assert (HV : V (decP (p_enc p) c) = Some (Some rep)) by (rewrite Hc_c, (proj1 (dec_enc (p_enc p) (encode pts rep) Harep)); apply V_whole; [apply reply_okm|apply reply_nonempty]).
-      rewrite HV in Lf; injection Lf as -> ->.
-      intros [= <- <- <-].
-      destruct Lpost as [Lc Lq]; destruct Lrel as (R1 & R2 & R3 & R4 & R5).
-      rewrite He2, Hp' in R1, R2, R3, R4, R5; cbn [p_enc p_dec closed script plog] in R1, R2, R3, R4, R5.
-      split.
-      { unfold Sync. rewrite Lc. cbn [eiv div s1]. split; [exact Lq|]. split; [rewrite <- R3; exact Hcl|]. split; [rewrite <- R2; reflexivity|].
-        rewrite <- R1, Hc_c. rewrite (proj2 (dec_enc (p_enc p) (encode pts rep) Harep)), Er. reflexivity. }
-      split; [auto|]. split; [rewrite <- R5; reflexivity|]. split; [split; [reflexivity|exact Lc]|].
-      intros _. split; [reflexivity|]. rewrite <- R4. reflexivity.
+      destruct (enc (p_enc p) (encode pts (reply_of ms))) as [c e'] eqn:Er; cbn [fst] in Hp'.
+      assert (Hq : inflight (est msg pstate w2) = [c] ++ []) by (rewrite Hp'; cbn [inflight]; rewrite Hin; reflexivity).
+      intro Hrun.
+      destruct (recv_reply fuel s1 w2 j c (p_enc p) (reply_of ms) [] _ Hf (reply_okm ms) (reply_nonempty ms) ltac:(rewrite Er; reflexivity) Hc2 Hq Hdl Hds1 _ _ _ Hrun)
+        as (-> & -> & Lc & Lq & (R1 & R2 & R3 & R4 & R5 & R6)).
+      rewrite Hp' in R1, R2, R3, R4, R5, R6; cbn [p_enc p_dec closed script plog delayed] in R1, R2, R3, R4, R5, R6. rewrite Er. cbn [snd].
+      split; [unfold Sync; rewrite Lc, <- R4; split; [exact Hsc'|]; cbn [eiv div s1]; repeat split; congruence|].
+      split; [auto|]. split; [rewrite <- R5; reflexivity|]. split; [rewrite <- R4; reflexivity|]. split; [split; [exact Lc|reflexivity]|reflexivity].
+    - (* the peer answers with a refusal *)
+      destruct (enc (p_enc p) (encode pts (deny_of ms))) as [c e'] eqn:Er; cbn [fst] in Hp'.
+      assert (Hq : inflight (est msg pstate w2) = [c] ++ []) by (rewrite Hp'; cbn [inflight]; rewrite Hin; reflexivity).
+      intro Hrun.
+      destruct (recv_reply fuel s1 w2 j c (p_enc p) (deny_of ms) [] _ Hf (deny_okm ms) (deny_nonempty ms) ltac:(rewrite Er; reflexivity) Hc2 Hq Hdl Hds1 _ _ _ Hrun)
+        as (-> & -> & Lc & Lq & (R1 & R2 & R3 & R4 & R5 & R6)).
+      rewrite Hp' in R1, R2, R3, R4, R5, R6; cbn [p_enc p_dec closed script plog delayed] in R1, R2, R3, R4, R5, R6. rewrite Er. cbn [snd].
+      split; [unfold Sync; rewrite Lc, <- R4; split; [exact Hsc'|]; cbn [eiv div s1]; repeat split; congruence|].
+      split; [auto|]. split; [rewrite <- R5; reflexivity|]. split; [rewrite <- R4; reflexivity|]. split; [split; [exact Lc|reflexivity]|reflexivity].
     - (* silent *)
       cbn [fst] in Hp'. destruct fuel as [|f]; [lia|]. cbn [Client.recv_loop]. rewrite Hc2.
-      cbn [on_read peer]. unfold p_read. rewrite He2, Hp'. cbn [inflight closed]. rewrite Hin, Hcl.
+      cbn [on_read peer]. unfold p_read. rewrite Hp'. cbn [inflight delayed closed]. rewrite Hin, Hdl0, Hcl.
       replace (dur 0%Z) with 0%Z by reflexivity. rewrite Z.add_0_r.
       destruct (Z.ltb_spec (clock msg pstate w1 + recv_to)%Z (clock msg pstate w2)) as [|_]; [lia|].
       unfold Client.disconnect. cbn [cur Client.upd].
       intros [= <- <- <-]. rewrite (proj1 (log_keeps' _ _ _)), (proj1 (proj2 (log_keeps' _ _ _))).
-      cbn [cur est Client.upd on_close peer plog]. unfold Sync. rewrite (proj1 (log_keeps' _ _ _)). cbn [cur Client.upd unauth authed].
-      repeat split; auto; try (cbn; discriminate); try (exfalso; match goal with H : healthy1 _ |- _ => unfold healthy1 in H; try rewrite Esc in H; exact H end).
+      cbn [cur est Client.upd on_close peer plog script]. unfold Sync. rewrite (proj1 (log_keeps' _ _ _)), (proj1 (proj2 (log_keeps' _ _ _))).
+      cbn [cur est Client.upd unauth authed on_close peer script].
+      repeat split; auto; try (cbn; discriminate). eexists; reflexivity.
+    - (* late: the reply arrives after the Read has timed out, on a connection the client then closes *)
+      destruct (enc (p_enc p) (encode pts (reply_of ms))) as [c e'] eqn:Er; cbn [fst] in Hp'.
+      destruct fuel as [|f]; [lia|]. cbn [Client.recv_loop]. rewrite Hc2.
+      cbn [on_read peer]. unfold p_read. rewrite Hp'. cbn [inflight delayed closed]. rewrite Hin, Hdl0. cbn [app].
+      replace (dur 0%Z) with 0%Z by reflexivity. rewrite Z.add_0_r.
+      destruct (Z.ltb_spec (clock msg pstate w1 + recv_to)%Z (clock msg pstate w2)) as [|_]; [lia|].
+      unfold Client.disconnect. cbn [cur Client.upd].
+      intros [= <- <- <-]. rewrite (proj1 (log_keeps' _ _ _)), (proj1 (proj2 (log_keeps' _ _ _))).
+      cbn [cur est Client.upd on_close peer plog script]. unfold Sync. rewrite (proj1 (log_keeps' _ _ _)), (proj1 (proj2 (log_keeps' _ _ _))).
+      cbn [cur est Client.upd unauth authed on_close peer script].
+      repeat split; auto; try (cbn; discriminate). eexists; reflexivity.
     - (* closed before answering *)
       cbn [fst] in Hp'. destruct fuel as [|f]; [lia|]. cbn [Client.recv_loop]. rewrite Hc2.
-      cbn [on_read peer]. unfold p_read. rewrite He2, Hp'. cbn [inflight closed]. rewrite Hin.
+      cbn [on_read peer]. unfold p_read. rewrite Hp'. cbn [inflight delayed closed]. rewrite Hin, Hdl0.
       replace (dur 0%Z) with 0%Z by reflexivity. rewrite Z.add_0_r.
       destruct (Z.ltb_spec (clock msg pstate w1 + recv_to)%Z (clock msg pstate w2)) as [|_]; [lia|].
       unfold Client.disconnect. cbn [cur Client.upd].
       intros [= <- <- <-]. rewrite (proj1 (log_keeps' _ _ _)), (proj1 (proj2 (log_keeps' _ _ _))).
-      cbn [cur est Client.upd on_close peer plog]. unfold Sync. rewrite (proj1 (log_keeps' _ _ _)). cbn [cur Client.upd unauth authed].
-      repeat split; auto; try (cbn; discriminate); try (exfalso; match goal with H : healthy1 _ |- _ => unfold healthy1 in H; try rewrite Esc in H; exact H end).
-    - (* a garbage block, then whatever: rejected, connection closed *)
-      destruct (enc (p_enc p) gp) as [c1 e1] eqn:E1. destruct (enc e1 tail) as [c2 e2] eqn:E2. cbn [fst] in Hp'.
-      destruct gp_bad as (Hlg & Hvg & _).
-      assert (Hc_c : c1 = fst (enc (p_enc p) gp)) by (rewrite E1; reflexivity).
-      assert (Hlen_c : length c1 = 32%nat) by (rewrite Hc_c, enc_len; [exact Hlg|unfold ClientReasm.al; rewrite Hlg; reflexivity]).
-      assert (Hone : one_reply msg decP V (p_enc p) c1) by (rewrite Hc_c; apply garbage_one).
+      cbn [cur est Client.upd on_close peer plog script]. unfold Sync. rewrite (proj1 (log_keeps' _ _ _)), (proj1 (proj2 (log_keeps' _ _ _))).
+      cbn [cur est Client.upd unauth authed on_close peer script].
+      repeat split; auto; try (cbn; discriminate). eexists; reflexivity.
+    - (* a proper prefix of the reply, then the connection is closed *)
+      destruct (enc (p_enc p) (encode pts (reply_of ms))) as [c e'] eqn:Er; cbn [fst] in Hp'.
+      destruct (enc_al pts (reply_of ms)) as [Harep Hlrep].
+      assert (Hlen_c : length c = length (encode pts (reply_of ms))) by (replace c with (fst (enc (p_enc p) (encode pts (reply_of ms)))) by (rewrite Er; reflexivity); apply enc_len; exact Harep).
+      assert (Hk : (n mod length c < length c)%nat) by (apply Nat.mod_upper_bound; lia).
+      assert (Hq : inflight (est msg pstate w2) = (if (n mod length c =? 0)%nat then [] else [firstn (n mod length c) c])).
+      { rewrite Hp'; cbn [inflight]; rewrite Hin; reflexivity. }
+      intro Hrun.
+      destruct (recv_short fuel s1 w2 j c (p_enc p) (reply_of ms) _ _ Hf (reply_okm ms) (reply_nonempty ms) ltac:(rewrite Er; reflexivity) Hk Hc2 Hq Hdl Hds1 _ _ _ Hrun)
+        as (-> & La & Lc & (R1 & R2 & R3 & R4 & R5)).
+      rewrite Hp' in R4, R5; cbn [script plog] in R4, R5.
+      split; [unfold Sync; rewrite Lc, <- R4; split; [exact Hsc'|exact La]|].
+      split; [rewrite La; discriminate|]. split; [rewrite <- R5; reflexivity|]. split; [rewrite <- R4; reflexivity|]. split; [auto|eexists; reflexivity].
+    - (* a rejected plaintext, then whatever: protocol error, connection closed *)
+      destruct (enc (p_enc p) g) as [c1 e1] eqn:E1. destruct (enc e1 tail) as [c2 e2] eqn:E2. cbn [fst] in Hp'.
       set (erest := if (length c2 =? 0)%nat then [] else [c2]) in *.
-      assert (Hq : inflight (est msg pstate w2) = [c1] ++ erest) by (rewrite He2, Hp'; cbn [inflight]; rewrite Hin; reflexivity).
-      pose proof (loop_inv maxlen fuel [c1] erest [] s1 (p_enc p) c1 [] [] w2 (clock msg pstate w1 + recv_to)%Z j
-                    ltac:(cbn [concat]; rewrite app_nil_r, Hlen_c; exact gp_bound) Hf ltac:(cbn [concat app]; rewrite app_nil_r; reflexivity)
-                    ltac:(constructor; [intro X; rewrite X in Hlen_c; discriminate|constructor]) ltac:(discriminate) Hone Hc2 Hq Hdl
-                    (est msg pstate w2) (Rel_refl _) eq_refl ltac:(cbn; rewrite decP_nil; reflexivity) ltac:(cbn; rewrite decI_nil; exact Hd)
-                    ltac:(cbn [length]; lia)) as L.
-      destruct (recv_loop fuel (clock msg pstate w1 + recv_to)%Z [] [] s1 w2) as [[s2 w3] r2].
-      destruct L as [Lf (Lrel & Lpost)]. unfold ClientReasm.final in Lf.
-      assert (Hga : al gp) by (unfold ClientReasm.al; rewrite Hlg; reflexivity).
-      assert (HV : V (decP (p_enc p) c1) = None) by (rewrite Hc_c, (proj1 (dec_enc (p_enc p) gp Hga)); exact Hvg).
-      rewrite HV in Lf. injection Lf as -> ->. intros [= <- <- <-].
-      destruct Lrel as (R1 & R2 & R3 & R4 & R5). rewrite He2, Hp' in R5. cbn [plog] in R5.
-      split; [unfold Sync; rewrite Lpost; reflexivity|]. split; [cbn; discriminate|]. split; [rewrite <- R5; reflexivity|]. split; [exact Lpost|].
-      intro Hh. unfold healthy1 in Hh. try rewrite Esc in Hh. contradiction.
+      assert (Hq : inflight (est msg pstate w2) = [c1] ++ erest) by (rewrite Hp'; cbn [inflight]; rewrite Hin; reflexivity).
+      intro Hrun.
+      destruct (recv_bad fuel s1 w2 j c1 (p_enc p) g erest _ Hf Hokb ltac:(rewrite E1; reflexivity) Hc2 Hq Hdl Hds1 _ _ _ Hrun)
+        as (-> & La & Lc & (R1 & R2 & R3 & R4 & R5 & R6)).
+      rewrite Hp' in R4, R5; cbn [script plog] in R4, R5.
+      split; [unfold Sync; rewrite Lc, <- R4; split; [exact Hsc'|exact La]|].
+      split; [rewrite La; discriminate|]. split; [rewrite <- R5; reflexivity|]. split; [rewrite <- R4; reflexivity|]. split; [auto|eexists; reflexivity].
   Qed.
 
   Notation connect := (connect msg iv0 conn_to pstate peer).
@@ -346,105 +452,57 @@ Section Peer.
     l = [] \/ l = [auth_req] \/ l = [ms] \/ l = [auth_req; ms].
 
   (* connecting to the peer always succeeds and yields a synchronised state *)
-  Lemma connect_peer s w : cur msg pstate w = None -> authed s = false ->
+  Lemma connect_peer s w : Forall okb (script (est msg pstate w)) -> cur msg pstate w = None -> authed s = false ->
     exists s0 w0 j, connect s w = (s0, w0, Ok _ tt) /\ Sync s0 w0 /\ cur msg pstate w0 = Some j /\ authed s0 = false /\
                     plog (est msg pstate w0) = plog (est msg pstate w) /\ script (est msg pstate w0) = script (est msg pstate w).
   Proof.
-    intros Hc Ha. destruct to_pos as (Hct & _ & _). unfold Client.connect.
+    intros Hsc Hc Ha. destruct to_pos as (Hct & _ & _). unfold Client.connect.
     destruct (log_keeps' w lInfo (LText msg 1)) as (A1 & A2 & A3 & A4).
     set (w1 := log msg pstate lInfo (LText msg 1) w) in *.
     cbn [on_dial peer]. unfold p_dial. replace (dur 0%Z) with 0%Z by reflexivity.
     destruct (Z.leb_spec 0 conn_to) as [_|]; [|lia]. cbn [andb].
     eexists _, _, (next msg pstate w1). split; [reflexivity|].
     destruct (log_keeps' (upd msg pstate w1 (Some (next msg pstate w1)) (S (next msg pstate w1))
-                {| p_enc := iv0; p_dec := iv0; inflight := []; closed := false; script := script (est msg pstate w1); plog := plog (est msg pstate w1) |}
+                {| p_enc := iv0; p_dec := iv0; inflight := []; delayed := []; closed := false; script := script (est msg pstate w1); plog := plog (est msg pstate w1) |}
                 (clock msg pstate w1 + 0)%Z [EvDial msg (next msg pstate w1)]) lInfo (LText msg 2)) as (B1 & B2 & _ & _).
-    unfold Sync. rewrite B1, B2. cbn [cur est Client.upd inflight closed p_dec p_enc eiv div authed plog script].
+    unfold Sync. rewrite B1, B2. cbn [cur est Client.upd inflight delayed closed p_dec p_enc eiv div authed plog script].
     rewrite A2. repeat split; auto.
   Qed.
 
-  (* C08 (pairing, at most once, in order) for one call *)
-  Theorem call_spec fuel s w ms s' w' r :
-    Sync s w -> (maxlen < fuel)%nat -> (valid_req ms = true -> okm ms) -> send_multiple fuel s w ms = (s', w', r) ->
-    Sync s' w' /\
-    (exists l, plog (est msg pstate w') = plog (est msg pstate w) ++ l /\ one_of l ms) /\
-    (forall x, r = Ok _ x -> x = reply_of ms /\ exists l, plog (est msg pstate w') = plog (est msg pstate w) ++ l ++ [ms]).
-  Proof.
-    intros HS Hf Hokm. unfold Client.send_multiple.
-    (* step 1: connection *)
-    assert (H0 : exists s0 w0 j, (match cur msg pstate w with None => connect s w | Some _ => (s, w, Ok _ tt) end) = (s0, w0, Ok _ tt) /\
-                 Sync s0 w0 /\ cur msg pstate w0 = Some j /\ plog (est msg pstate w0) = plog (est msg pstate w) /\
-                 (cur msg pstate w = None -> authed s0 = false)).
-    { destruct (cur msg pstate w) as [j|] eqn:Ec.
-      - exists s, w, j. repeat split; auto. discriminate.
-      - unfold Sync in HS. rewrite Ec in HS.
-        destruct (connect_peer s w Ec HS) as (s0 & w0 & j & A & B & C & D & F & _). exists s0, w0, j. repeat split; auto. }
-    destruct H0 as (s0 & w0 & j & E0 & HS0 & Hc0 & Hl0 & _). rewrite E0.
-    (* step 2: authentication when needed *)
-    destruct (authed s0) eqn:Ea.
-    - destruct (valid_req ms) eqn:Hv.
-      + intro H. destruct (exchange (fun x => x) fuel s0 w0 ms j s' w' r id_level_only HS0 Hc0 Hv (Hokm eq_refl) Hf) as (A & B & C & D & _).
-        { destruct (send s0 w0 ms) as [[sa wa] [u|x]]; exact H. }
-        split; [exact A|]. split.
-        * exists [ms]. rewrite C, Hl0. split; [reflexivity|]. right. right. left. reflexivity.
-        * intros x ->. destruct D as [-> _]. split; [reflexivity|]. exists []. rewrite C, Hl0. reflexivity.
-      + rewrite (send_invalid s0 w0 ms Hv). intros [= <- <- <-]. split; [exact HS0|]. split.
-        * exists []. rewrite app_nil_r. split; [exact Hl0|left; reflexivity].
-        * intros x Hx. discriminate.
-    - unfold Client.authenticate.
-      set (org := level msg pstate w0).
-      set (w0a := if org <? auth_level then set_level msg pstate (N.min org lInfo) (log msg pstate lInfo (LText msg 4) w0) else w0).
-      assert (K0 : cur msg pstate w0a = Some j /\ est msg pstate w0a = est msg pstate w0).
-      { unfold w0a. destruct (org <? auth_level); [cbn [cur est Client.set_level]; destruct (log_keeps' w0 lInfo (LText msg 4)) as (A1 & A2 & _); rewrite A1, A2|]; auto. }
-      destruct K0 as [Kc Ke].
-      assert (HS0a : Sync s0 w0a) by (unfold Sync in *; rewrite Kc, Ke; rewrite Hc0 in HS0; exact HS0).
-      set (adj := fun w1 : world => if org <? auth_level then set_level msg pstate org w1 else w1).
-      assert (Hadj : level_only adj) by (unfold adj; destruct (org <? auth_level); [apply set_level_only|apply id_level_only]).
-      destruct (send s0 w0a auth_req) as [[s1 w1] r1] eqn:Es1.
-      fold (adj w1).
-      destruct (match r1 with Err _ x => (s1, adj w1, Err _ x) | Ok _ _ => receive fuel s1 (adj w1) end) as [[s2 w2] r2] eqn:Ex.
-      assert (Hex := exchange adj fuel s0 w0a auth_req j s2 w2 r2 Hadj HS0a Kc auth_valid auth_okm Hf).
-      rewrite Es1 in Hex. specialize (Hex Ex). destruct Hex as (A & B & C & D & _). rewrite Ke in C.
-      destruct r1 as [u|x1].
-      + rewrite Ex. destruct r2 as [x2|x2].
-        * destruct D as [-> Hc2]. rewrite auth_grants.
-          set (s3 := {| authed := true; eiv := eiv s2; div := div s2 |}).
-          set (w3 := log msg pstate lInfo (LText msg 5) (match cur msg pstate w2 with Some j0 => emit msg pstate (EvGranted msg j0) w2 | None => w2 end)).
-          assert (K3 : cur msg pstate w3 = Some j /\ est msg pstate w3 = est msg pstate w2).
-          { unfold w3. destruct (log_keeps' (match cur msg pstate w2 with Some j0 => emit msg pstate (EvGranted msg j0) w2 | None => w2 end) lInfo (LText msg 5)) as (A1 & A2 & _).
-            rewrite A1, A2, Hc2. cbn [cur est Client.emit Client.upd]. auto. }
-          destruct K3 as [K3c K3e].
-          assert (HS3 : Sync s3 w3). { unfold Sync in *. rewrite K3c, K3e. rewrite Hc2 in A. exact A. }
-          destruct (valid_req ms) eqn:Hv.
-          -- intro H. destruct (exchange (fun x => x) fuel s3 w3 ms j s' w' r id_level_only HS3 K3c Hv (Hokm eq_refl) Hf) as (A' & B' & C' & D' & _).
-             { destruct (send s3 w3 ms) as [[sa wa] [u'|x']]; exact H. }
-             rewrite K3e in C'.
-             split; [exact A'|]. split.
-             ++ exists [auth_req; ms]. rewrite C', C, Hl0, <- app_assoc. split; [reflexivity|]. right. right. right. reflexivity.
-             ++ intros x ->. destruct D' as [-> _]. split; [reflexivity|]. exists [auth_req]. rewrite C', C, Hl0, <- app_assoc. reflexivity.
-          -- rewrite (send_invalid s3 w3 ms Hv). intros [= <- <- <-]. split; [exact HS3|]. split.
-             ++ exists [auth_req]. rewrite K3e, C, Hl0. split; [reflexivity|]. right. left. reflexivity.
-             ++ intros x Hx. discriminate.
-        * intros [= <- <- <-]. split; [exact A|]. split.
-          -- exists [auth_req]. rewrite C, Hl0. split; [reflexivity|]. right. left. reflexivity.
-          -- intros x Hx. discriminate.
-      + injection Ex as <- <- <-. intros [= <- <- <-]. split; [exact A|]. split.
-        * exists [auth_req]. rewrite C, Hl0. split; [reflexivity|]. right. left. reflexivity.
-        * intros x Hx. discriminate.
+  (* Disconnect keeps the invariant, tells the peer nothing and leaves the client closed *)
+  Lemma disconnect_sync s w s' w' : Sync s w -> disconnect s w = (s', w') ->
+    Sync s' w' /\ cur msg pstate w' = None /\ authed s' = false /\
+    plog (est msg pstate w') = plog (est msg pstate w) /\ script (est msg pstate w') = script (est msg pstate w).
+  Proof using All.
+    intros [Hsc HS]. unfold Client.disconnect. intros [= <- <-]. destruct (cur msg pstate w) as [j|] eqn:Ec.
+    - unfold Sync. rewrite !(proj1 (log_keeps' _ _ _)), !(proj1 (proj2 (log_keeps' _ _ _))). cbn [cur est Client.upd on_close peer unauth authed].
+      repeat split; auto.
+    - unfold Sync. rewrite Ec. cbn [unauth authed]. repeat split; auto.
   Qed.
 
-  (* C08 (recovery): from a closed state, if the peer is healthy for the next two exchanges, the call reconnects,
-     re-authenticates and returns the reply to this very request *)
-  Theorem recovery fuel s w ms s' w' r :
-    Sync s w -> cur msg pstate w = None -> (maxlen < fuel)%nat -> valid_req ms = true -> okm ms ->
-    (match script (est msg pstate w) with [] => True | [Answer] => True | Answer :: Answer :: _ => True | _ => False end) ->
-    send_multiple fuel s w ms = (s', w', r) ->
-    r = Ok _ (reply_of ms) /\ plog (est msg pstate w') = plog (est msg pstate w) ++ [auth_req; ms] /\ Sync s' w'.
+  (* the connection step of a call *)
+  Lemma step_connect s w : Sync s w ->
+    exists s0 w0 j, (match cur msg pstate w with None => connect s w | Some _ => (s, w, Ok _ tt) end) = (s0, w0, Ok _ tt) /\
+       Sync s0 w0 /\ cur msg pstate w0 = Some j /\ plog (est msg pstate w0) = plog (est msg pstate w) /\
+       script (est msg pstate w0) = script (est msg pstate w) /\ authed s0 = authed s.
   Proof.
-    intros HS Hc Hf Hv Hokm Hh. unfold Client.send_multiple. rewrite Hc.
-    assert (Ha : authed s = false) by (unfold Sync in HS; rewrite Hc in HS; exact HS).
-    destruct (connect_peer s w Hc Ha) as (s0 & w0 & j & E0 & HS0 & Hc0 & Ha0 & Hl0 & Hsc0). rewrite E0, Ha0.
-    unfold Client.authenticate.
+    intro HS. destruct (cur msg pstate w) as [j|] eqn:Ec.
+    - exists s, w, j. split; [reflexivity|]. split; [exact HS|]. repeat split; auto.
+    - pose proof HS as [Hsc HS']. rewrite Ec in HS'.
+      destruct (connect_peer s w Hsc Ec HS') as (s0 & w0 & j & A & B & C & D & F & G). exists s0, w0, j. split; [exact A|]. split; [exact B|]. repeat split; auto. congruence.
+  Qed.
+
+  (* the authentication step of a call, started on a synchronised connection *)
+  Lemma step_auth fuel s0 w0 j s1 w1 r1 : Sync s0 w0 -> cur msg pstate w0 = Some j -> (maxlen < fuel)%nat ->
+    authenticate fuel s0 w0 = (s1, w1, r1) ->
+    Sync s1 w1 /\ plog (est msg pstate w1) = plog (est msg pstate w0) ++ [auth_req] /\
+    script (est msg pstate w1) = tl (script (est msg pstate w0)) /\
+    match r1 with
+    | Ok _ _ => cur msg pstate w1 = Some j /\ authed s1 = true /\ hd_b (est msg pstate w0) = Answer
+    | Err _ x => authed s1 = false /\ ((cur msg pstate w1 = None /\ (x = EIO \/ x = EProto)) \/ (x = EAuth /\ hd_b (est msg pstate w0) = Refuse /\ cur msg pstate w1 = Some j))
+    end.
+  Proof.
+    intros HS0 Hc0 Hf. unfold Client.authenticate.
     set (org := level msg pstate w0).
     set (w0a := if org <? auth_level then set_level msg pstate (N.min org lInfo) (log msg pstate lInfo (LText msg 4) w0) else w0).
     assert (K0 : cur msg pstate w0a = Some j /\ est msg pstate w0a = est msg pstate w0).
@@ -453,33 +511,193 @@ Section Peer.
     assert (HS0a : Sync s0 w0a) by (unfold Sync in *; rewrite Kc, Ke; rewrite Hc0 in HS0; exact HS0).
     set (adj := fun w1 : world => if org <? auth_level then set_level msg pstate org w1 else w1).
     assert (Hadj : level_only adj) by (unfold adj; destruct (org <? auth_level); [apply set_level_only|apply id_level_only]).
-    destruct (send s0 w0a auth_req) as [[s1 w1] r1] eqn:Es1.
-    fold (adj w1).
-    destruct (match r1 with Err _ x => (s1, adj w1, Err _ x) | Ok _ _ => receive fuel s1 (adj w1) end) as [[s2 w2] r2] eqn:Ex.
+    destruct (send s0 w0a auth_req) as [[sa wa] ra] eqn:Es1.
+    fold (adj wa).
+    destruct (match ra with Err _ x => (sa, adj wa, Err _ x) | Ok _ _ => receive fuel sa (adj wa) end) as [[s2 w2] r2] eqn:Ex.
     assert (Hex := exchange adj fuel s0 w0a auth_req j s2 w2 r2 Hadj HS0a Kc auth_valid auth_okm Hf).
-    rewrite Es1 in Hex. specialize (Hex Ex). destruct Hex as (A & B & C & D & Hhealthy). rewrite Ke in C.
-    assert (Hh0 : healthy1 (est msg pstate w0a)).
-    { unfold healthy1. rewrite Ke, Hsc0. destruct (script (est msg pstate w)) as [|[| | |] [|[| | |] ?]]; try contradiction; exact I. }
-    destruct (Hhealthy Hh0) as [-> Hsc2]. rewrite Ke, Hsc0 in Hsc2.
-    destruct D as [_ Hc2].
-    destruct r1 as [u|x1]; [|discriminate].
-    rewrite Ex. rewrite auth_grants.
-    set (s3 := {| authed := true; eiv := eiv s2; div := div s2 |}).
-    set (w3 := log msg pstate lInfo (LText msg 5) (match cur msg pstate w2 with Some j0 => emit msg pstate (EvGranted msg j0) w2 | None => w2 end)).
-    assert (K3 : cur msg pstate w3 = Some j /\ est msg pstate w3 = est msg pstate w2).
-    { unfold w3. destruct (log_keeps' (match cur msg pstate w2 with Some j0 => emit msg pstate (EvGranted msg j0) w2 | None => w2 end) lInfo (LText msg 5)) as (A1 & A2 & _).
-      rewrite A1, A2, Hc2. cbn [cur est Client.emit Client.upd]. auto. }
-    destruct K3 as [K3c K3e].
-    assert (HS3 : Sync s3 w3). { unfold Sync in *. rewrite K3c, K3e. rewrite Hc2 in A. exact A. }
+    rewrite Es1 in Hex. specialize (Hex Ex). destruct Hex as (A & B & C & Dsc & D & O). rewrite Ke in C, Dsc, O.
+    destruct ra as [u|x1].
+    - rewrite Ex. destruct r2 as [x2|x2].
+      + destruct D as [Hc2 Ha2].
+        assert (Hx2 : (hd_b (est msg pstate w0) = Answer /\ x2 = reply_of auth_req) \/ (hd_b (est msg pstate w0) = Refuse /\ x2 = deny_of auth_req)).
+        { unfold outcome in O. destruct (hd_b (est msg pstate w0)); try (destruct O as [? O]; discriminate O); injection O as ->; auto. }
+        destruct Hx2 as [[Hb ->]|[Hb ->]].
+        * rewrite auth_grants.
+          set (w3 := log msg pstate lInfo (LText msg 5) (match cur msg pstate w2 with Some j0 => emit msg pstate (EvGranted msg j0) w2 | None => w2 end)).
+          assert (K3 : cur msg pstate w3 = Some j /\ est msg pstate w3 = est msg pstate w2).
+          { unfold w3. destruct (log_keeps' (match cur msg pstate w2 with Some j0 => emit msg pstate (EvGranted msg j0) w2 | None => w2 end) lInfo (LText msg 5)) as (A1 & A2 & _).
+            rewrite A1, A2, Hc2. cbn [cur est Client.emit Client.upd]. auto. }
+          destruct K3 as [K3c K3e].
+          intros [= <- <- <-]. rewrite K3e. split; [unfold Sync in *; rewrite K3c, K3e; rewrite Hc2 in A; exact A|]. auto.
+        * rewrite auth_denies. intros [= <- <- <-].
+          split; [unfold Sync in *; rewrite Hc2 in *; exact A|]. split; [exact C|]. split; [exact Dsc|]. split; [reflexivity|]. right. auto.
+      + intros [= <- <- <-]. destruct D as [Hc2 Hx]. split; [exact A|]. split; [exact C|]. split; [exact Dsc|].
+        split; [|left; auto]. destruct A as [_ A]. rewrite Hc2 in A. exact A.
+    - injection Ex as <- <- <-. intros [= <- <- <-]. destruct D as [Hc2 Hx]. split; [exact A|]. split; [exact C|]. split; [exact Dsc|].
+      split; [|left; auto]. destruct A as [_ A]. rewrite Hc2 in A. exact A.
+  Qed.
+
+  (* C08 (pairing, at most once, in order) for one call *)
+  Theorem call_spec fuel s w ms s' w' r :
+    Sync s w -> (maxlen < fuel)%nat -> (valid_req ms = true -> okm ms) -> send_multiple fuel s w ms = (s', w', r) ->
+    Sync s' w' /\
+    (exists l, plog (est msg pstate w') = plog (est msg pstate w) ++ l /\ one_of l ms) /\
+    (forall x, r = Ok _ x -> (x = reply_of ms \/ x = deny_of ms) /\
+               exists l, plog (est msg pstate w') = plog (est msg pstate w) ++ l ++ [ms]) /\
+    (forall x, r = Err _ x -> (cur msg pstate w' = None /\ (x = EIO \/ x = EProto)) \/ x = EValidate \/ (x = EAuth /\ authed s' = false)).
+  Proof using All.
+    intros HS Hf Hokm. unfold Client.send_multiple.
+    destruct (step_connect s w HS) as (s0 & w0 & j & E0 & HS0 & Hc0 & Hl0 & Hsc0 & Ha0). rewrite E0.
+    assert (Fin : forall sa wa l0, Sync sa wa -> cur msg pstate wa = Some j -> plog (est msg pstate wa) = plog (est msg pstate w) ++ l0 -> (l0 = [] \/ l0 = [auth_req]) ->
+              (match send sa wa ms with (s2, w2, Err _ x) => (s2, w2, Err _ x) | (s2, w2, Ok _ _) => receive fuel s2 w2 end) = (s', w', r) ->
+              Sync s' w' /\ (exists l, plog (est msg pstate w') = plog (est msg pstate w) ++ l /\ one_of l ms) /\
+              (forall x, r = Ok _ x -> (x = reply_of ms \/ x = deny_of ms) /\ exists l, plog (est msg pstate w') = plog (est msg pstate w) ++ l ++ [ms]) /\
+              (forall x, r = Err _ x -> (cur msg pstate w' = None /\ (x = EIO \/ x = EProto)) \/ x = EValidate \/ (x = EAuth /\ authed s' = false))).
+    { intros sa wa l0 HSa Hca Hla Hl0' H. destruct (valid_req ms) eqn:Hv.
+      - destruct (exchange (fun x => x) fuel sa wa ms j s' w' r id_level_only HSa Hca Hv (Hokm eq_refl) Hf) as (A & B & C & Dsc & D & O).
+        { destruct (send sa wa ms) as [[sb wb] [u|x]]; exact H. }
+        split; [exact A|]. split; [|split].
+        + exists (l0 ++ [ms]). rewrite C, Hla, <- app_assoc. split; [reflexivity|]. destruct Hl0' as [->| ->]; unfold one_of; cbn [app]; auto.
+        + intros x ->. split; [|exists l0; rewrite C, Hla, <- app_assoc; reflexivity].
+          unfold outcome in O. destruct (hd_b (est msg pstate wa)); try (destruct O as [? O]; discriminate O); injection O as ->; auto.
+        + intros x ->. left. exact D.
+      - rewrite (send_invalid sa wa ms Hv) in H. injection H as <- <- <-. split; [exact HSa|]. split; [|split].
+        + exists l0. split; [exact Hla|]. destruct Hl0' as [->| ->]; unfold one_of; auto.
+        + intros x Hx. discriminate.
+        + intros x [= <-]. auto. }
+    destruct (authed s0) eqn:Ea.
+    - apply (Fin s0 w0 []); auto. rewrite app_nil_r. exact Hl0.
+    - destruct (authenticate fuel s0 w0) as [[s1 w1] r1] eqn:Eau.
+      destruct (step_auth fuel s0 w0 j s1 w1 r1 HS0 Hc0 Hf Eau) as (A & C & Dsc & D).
+      destruct r1 as [u|x1].
+      + destruct D as (Hc1 & Ha1 & _). apply (Fin s1 w1 [auth_req]); auto. rewrite C, Hl0. reflexivity.
+      + intros [= <- <- <-]. split; [exact A|]. split; [|split].
+        * exists [auth_req]. rewrite C, Hl0. split; [reflexivity|]. unfold one_of; auto.
+        * intros x Hx. discriminate.
+        * intros x [= <-]. destruct D as [Ha1 [[Hc1 Hx]|(Hx & _ & _)]]; auto.
+  Qed.
+
+  Definition healthy (n : nat) (p : pstate) : Prop := firstn n (script p) = firstn n (repeat Answer n) \/ exists k, (k < n)%nat /\ script p = repeat Answer k.
+  (* healthy n p: the peer answers at least the next n requests normally *)
+
+  Lemma healthy_hd n p : healthy (S n) p -> hd_b p = Answer /\ forall p', script p' = tl (script p) -> healthy n p'.
+  Proof.
+    unfold healthy, hd_b. intros [H|[k [Hk H]]].
+    - destruct (script p) as [|b sc]; [split; [reflexivity|]|].
+      + intros p' ->. right. exists 0%nat. cbn. destruct n; [cbn in H; discriminate|split; [lia|reflexivity]].
+      + cbn [firstn repeat] in H. injection H as -> H. split; [reflexivity|]. intros p' ->. left. exact H.
+    - rewrite H. destruct k; cbn [repeat]; (split; [reflexivity|]); intros p' ->; cbn [tl].
+      + destruct n.
+        * left. reflexivity.
+        * right. exists 0%nat. split; [lia|reflexivity].
+      + right. exists k. split; [lia|reflexivity].
+  Qed.
+
+  (* C08 (recovery): whenever the client is not authenticated - after a timeout, a broken connection, a protocol error, a refused
+     authentication or Disconnect - and the peer answers the next two requests, the call (re)connects where necessary,
+     authenticates again and returns the reply to this very request *)
+  Theorem recovery fuel s w ms s' w' r :
+    Sync s w -> authed s = false -> (maxlen < fuel)%nat -> valid_req ms = true -> okm ms -> healthy 2 (est msg pstate w) ->
+    send_multiple fuel s w ms = (s', w', r) ->
+    r = Ok _ (reply_of ms) /\ plog (est msg pstate w') = plog (est msg pstate w) ++ [auth_req; ms] /\ Sync s' w' /\ authed s' = true.
+  Proof using All.
+    intros HS Ha Hf Hv Hokm Hh. unfold Client.send_multiple.
+    destruct (step_connect s w HS) as (s0 & w0 & j & E0 & HS0 & Hc0 & Hl0 & Hsc0 & Ha0). rewrite E0, Ha0, Ha.
+    destruct (authenticate fuel s0 w0) as [[s1 w1] r1] eqn:Eau.
+    destruct (step_auth fuel s0 w0 j s1 w1 r1 HS0 Hc0 Hf Eau) as (A & C & Dsc & D).
+    destruct (healthy_hd 1 (est msg pstate w) Hh) as [Hb Hh1].
+    assert (Hb0 : hd_b (est msg pstate w0) = Answer) by (unfold hd_b in *; rewrite Hsc0; exact Hb).
+    destruct r1 as [u|x1].
+    2:{ exfalso. destruct D as [_ [[Hc1 _]|(_ & Hr & _)]]; [|congruence].
+        (* a healthy exchange cannot fail: re-run the exchange lemma's outcome through step_auth's disjunction *)
+        revert Eau. unfold Client.authenticate.
+        set (org := level msg pstate w0).
+        set (w0a := if org <? auth_level then set_level msg pstate (N.min org lInfo) (log msg pstate lInfo (LText msg 4) w0) else w0).
+        assert (K0 : cur msg pstate w0a = Some j /\ est msg pstate w0a = est msg pstate w0).
+        { unfold w0a. destruct (org <? auth_level); [cbn [cur est Client.set_level]; destruct (log_keeps' w0 lInfo (LText msg 4)) as (A1 & A2 & _); rewrite A1, A2|]; auto. }
+        destruct K0 as [Kc Ke].
+        assert (HS0a : Sync s0 w0a) by (unfold Sync in *; rewrite Kc, Ke; rewrite Hc0 in HS0; exact HS0).
+        set (adj := fun w1 : world => if org <? auth_level then set_level msg pstate org w1 else w1).
+        assert (Hadj : level_only adj) by (unfold adj; destruct (org <? auth_level); [apply set_level_only|apply id_level_only]).
+        destruct (send s0 w0a auth_req) as [[sa wa] ra] eqn:Es1. fold (adj wa).
+        destruct (match ra with Err _ x => (sa, adj wa, Err _ x) | Ok _ _ => receive fuel sa (adj wa) end) as [[s2 w2] r2] eqn:Ex.
+        assert (Hex := exchange adj fuel s0 w0a auth_req j s2 w2 r2 Hadj HS0a Kc auth_valid auth_okm Hf).
+        rewrite Es1 in Hex. specialize (Hex Ex). destruct Hex as (_ & _ & _ & _ & D' & O). rewrite Ke, Hb0 in O. unfold outcome in O. subst r2.
+        destruct ra as [u|xa]; [|discriminate Ex]. rewrite Ex, auth_grants. discriminate. }
+    destruct D as (Hc1 & Ha1 & _).
+    assert (Hh1' : healthy 1 (est msg pstate w1)) by (apply Hh1; rewrite Dsc, Hsc0; reflexivity).
+    destruct (healthy_hd 0 _ Hh1') as [Hb1 _].
     intro H.
-    destruct (exchange (fun x => x) fuel s3 w3 ms j s' w' r id_level_only HS3 K3c Hv Hokm Hf) as (A' & B' & C' & D' & Hhealthy').
-    { destruct (send s3 w3 ms) as [[sa wa] [u'|x']]; exact H. }
-    assert (Hh3 : healthy1 (est msg pstate w3)).
-    { unfold healthy1. rewrite K3e, Hsc2. destruct (script (est msg pstate w)) as [|[| | |] [|[| | |] ?]]; try contradiction; exact I. }
-    destruct (Hhealthy' Hh3) as [-> _].
-    split; [reflexivity|]. split; [|exact A']. rewrite C', K3e, C, Hl0, <- app_assoc. reflexivity.
+    destruct (exchange (fun x => x) fuel s1 w1 ms j s' w' r id_level_only A Hc1 Hv Hokm Hf) as (A' & B' & C' & Dsc' & D' & O').
+    { destruct (send s1 w1 ms) as [[sb wb] [u'|x']]; exact H. }
+    rewrite Hb1 in O'. unfold outcome in O'. subst r. destruct D' as [_ D'].
+    split; [reflexivity|]. split; [rewrite C', C, Hl0, <- app_assoc; reflexivity|]. split; [exact A'|congruence].
+  Qed.
+
+  (* ... and an authenticated client whose peer answers the next request gets exactly that answer, with nothing else sent *)
+  Theorem steady fuel s w ms s' w' r :
+    Sync s w -> authed s = true -> (maxlen < fuel)%nat -> valid_req ms = true -> okm ms -> healthy 1 (est msg pstate w) ->
+    send_multiple fuel s w ms = (s', w', r) ->
+    r = Ok _ (reply_of ms) /\ plog (est msg pstate w') = plog (est msg pstate w) ++ [ms] /\ Sync s' w' /\ authed s' = true.
+  Proof using All.
+    intros HS Ha Hf Hv Hokm Hh. unfold Client.send_multiple.
+    destruct (cur msg pstate w) as [j|] eqn:Ec; [|destruct HS as [_ HS]; rewrite Ec in HS; congruence].
+    rewrite Ha. intro H.
+    destruct (exchange (fun x => x) fuel s w ms j s' w' r id_level_only HS Ec Hv Hokm Hf) as (A' & B' & C' & Dsc' & D' & O').
+    { destruct (send s w ms) as [[sb wb] [u'|x']]; exact H. }
+    destruct (healthy_hd 0 _ Hh) as [Hb _]. rewrite Hb in O'. unfold outcome in O'. subst r. destruct D' as [_ D'].
+    split; [reflexivity|]. split; [exact C'|]. split; [exact A'|congruence].
+  Qed.
+
+  (* ---- whole histories of calls ---- *)
+  Fixpoint run_res (s : cstate) (w : world) (cs : list (call msg)) : cstate * world * list (option (res (list msg))) :=
+    match cs with
+    | [] => (s, w, [])
+    | CSend _ fuel ms :: cs' => let '(s1, w1, x) := send_multiple fuel s w ms in
+                                let '(s2, w2, xs) := run_res s1 w1 cs' in (s2, w2, Some x :: xs)
+    | CDisconnect _ :: cs' => let '(s1, w1) := disconnect s w in
+                              let '(s2, w2, xs) := run_res s1 w1 cs' in (s2, w2, None :: xs)
+    end.
+
+  Lemma run_res_run s w cs : fst (run_res s w cs) = run msg encode decode_step enc dec iv0 valid_req auth_req auth_ok conn_to send_to recv_to rbuf pstate peer s w cs.
+  Proof.
+    revert s w; induction cs as [|[fuel ms|] cs IH]; intros s w; [reflexivity| |]; cbn [run_res run do_call].
+    - destruct (send_multiple fuel s w ms) as [[s1 w1] x]. rewrite <- IH. destruct (run_res s1 w1 cs) as [[s2 w2] xs]. reflexivity.
+    - destruct (disconnect s w) as [s1 w1]. rewrite <- IH. destruct (run_res s1 w1 cs) as [[s2 w2] xs]. reflexivity.
+  Qed.
+
+  Definition okc (c : call msg) : Prop :=
+    match c with CSend _ fuel ms => (maxlen < fuel)%nat /\ (valid_req ms = true -> okm ms) | CDisconnect _ => True end.
+
+  (* what one call contributed to the peer's log (l) and what it returned (r) *)
+  Inductive paired : list (call msg) -> list (option (res (list msg))) -> list (list (list msg)) -> Prop :=
+  | paired_nil : paired [] [] []
+  | paired_disc cs rs ls : paired cs rs ls -> paired (CDisconnect _ :: cs) (None :: rs) ([] :: ls)
+  | paired_send fuel ms r l cs rs ls : paired cs rs ls -> one_of l ms ->
+      (forall x, r = Ok _ x -> (x = reply_of ms \/ x = deny_of ms) /\ exists l0, l = l0 ++ [ms]) ->
+      paired (CSend _ fuel ms :: cs) (Some r :: rs) (l :: ls).
+
+  (* C08 over every history of calls and every fault script: the peer's log is the concatenation, in call order, of what the
+     single calls contributed - nothing, the authentication request, the request, or both (each request at most once) - and
+     every successful call returned the reply the peer produced for that very request, which is the last thing it received *)
+  Theorem history cs : forall s w, Sync s w -> Forall okc cs ->
+    let '(s', w', rs) := run_res s w cs in
+    Sync s' w' /\ exists ls, paired cs rs ls /\ plog (est msg pstate w') = plog (est msg pstate w) ++ concat ls.
+  Proof using All.
+    induction cs as [|[fuel ms|] cs IH]; intros s w HS Hok; cbn [run_res].
+    - split; [exact HS|]. exists []. split; [constructor|]. cbn. rewrite app_nil_r. reflexivity.
+    - inversion Hok as [|c0 cs0 Hc Hok']; subst. destruct Hc as [Hf Hm].
+      destruct (send_multiple fuel s w ms) as [[s1 w1] x] eqn:Ec.
+      destruct (call_spec fuel s w ms s1 w1 x HS Hf Hm Ec) as (A & (l & Hl & Ho) & Hx & _).
+      specialize (IH s1 w1 A Hok'). destruct (run_res s1 w1 cs) as [[s2 w2] xs]. destruct IH as (A2 & ls & Hp & Hl2).
+      split; [exact A2|]. exists (l :: ls). split.
+      + constructor; [exact Hp|exact Ho|]. intros y Hy. destruct (Hx y Hy) as [H1 [l0 H2]]. split; [exact H1|]. exists l0.
+        rewrite Hl in H2. apply app_inv_head in H2. exact H2.
+      + rewrite Hl2, Hl. cbn [concat]. rewrite <- app_assoc. reflexivity.
+    - inversion Hok as [|c0 cs0 _ Hok']; subst.
+      destruct (disconnect s w) as [s1 w1] eqn:Ed.
+      destruct (disconnect_sync s w s1 w1 HS Ed) as (A & _ & _ & Hl & _).
+      specialize (IH s1 w1 A Hok'). destruct (run_res s1 w1 cs) as [[s2 w2] xs]. destruct IH as (A2 & ls & Hp & Hl2).
+      split; [exact A2|]. exists ([] :: ls). split; [constructor; exact Hp|]. rewrite Hl2, Hl. reflexivity.
   Qed.
 End Peer.
-
-Print Assumptions call_spec.
-Print Assumptions recovery.
